@@ -97,6 +97,14 @@ func fnExec(ctx *cmdContext, args map[string]any) (output respValue, err error) 
 		return
 	}
 
+	// A transaction can reach into databases other than the one it owns
+	// (FLUSHALL, commands queued after a SELECT, keys watched before a
+	// SELECT). Whoever holds more than one database lock must hold the
+	// multi-data-store lock from before the first, or two transactions on
+	// different databases could wait for each other for ever.
+	multiDataStoreLock.Lock()
+	defer multiDataStoreLock.Unlock()
+
 	// keys watched in another database (WATCH, then SELECT) are examined
 	// under that database's own lock, before this one is taken
 	foreignChange := false
